@@ -44,7 +44,7 @@ ResetCore ==
   /\ present' = TRUE /\ dying' = FALSE /\ rel' = {}
   /\ lpc' = [c \in Consumers |-> "link.check"]
   /\ lres' = [c \in Consumers |-> ""] /\ ures' = [c \in Consumers |-> ""]
-  /\ tpc' = "start" /\ got' = [c \in Consumers |-> 0]
+  /\ tpc' = "start" /\ got' = [c \in Consumers |-> 0] /\ pend' = {}
 
 LineReset(e) ==
   /\ e.ev = "reset"
